@@ -31,6 +31,7 @@ PostOK == TLCGet(1) = TRUE
 
 Mark(name) == PrintT(<<"FAIL", ToJson([tid |-> tid, clause |-> name])>>)
 Chk(name, cond) == cond \/ (Mark(name) /\ FALSE)
+Adv(name, cond) == cond \/ PrintT(<<"ADVISORY", ToJson([tid |-> tid, clause |-> name])>>)
 
 ObsTriple == [pred |-> T.obs.pred, lower |-> T.obs.lower, upper |-> T.obs.upper]
 InjectOK ==
@@ -39,7 +40,12 @@ InjectOK ==
     THEN Chk("wrong_size_rejected", T.obs.kind = "error")
     ELSE /\ Chk("summary_completed", T.obs.kind = "ok")
          /\ T.obs.kind = "ok" =>
-              /\ Chk("triple_is_a_candidate", ObsTriple \in Candidates)
+              \* the exact triple of the specification's model of the algorithm: advisory (the property states the
+              \* clauses below, not the algorithm)
+              /\ Adv("triple_differs_from_modelled_algorithm", ObsTriple \in Candidates)
+              /\ Chk("called_contests_certain",
+                     /\ ObsTriple.pred - ObsTriple.lower <= SumC(LAMBDA c : ns.w[c] * Ind(~Called(c) \/ c \in ns.stop))
+                     /\ ObsTriple.upper - ObsTriple.pred <= SumC(LAMBDA c : ns.w[c] * Ind(~Called(c) \/ c \in ns.stop)))
               /\ Chk("ordered", ObsTriple.lower <= ObsTriple.pred /\ ObsTriple.pred <= ObsTriple.upper)
               /\ Chk("bounded", ns.base <= ObsTriple.lower /\ ObsTriple.upper <= ns.base + TotalWeight)
               /\ Chk("pred_is_winners", ObsTriple.pred = ns.base + SumC(LAMBDA c : ns.w[c] * Ind(PM(c) > 0)))
